@@ -1,15 +1,17 @@
-"""ActorCore group: C03, C05, C06, C08, C09 (the actor runtime under the controlled scheduler)."""
+"""ActorCore group: C03, C05, C06, C08, C09, C19 (the actor runtime under the controlled scheduler)."""
 
 _WHAT = ("the real actor runtime (System, Context.HandleEnvelop and all its handlers, guard, event stream) with the mailbox re-instrumented from the "
          "current source, run under the controlled scheduler with scripted actors; every mailbox-level step (queue insertion, end of Enqueue, Pause/Resume "
          "words, system/user pop, paused load, handler call) is replayed on coq/Actor/Core.v, which must predict the target mailbox and the content of every "
          "enqueue, the message of every handler call, everything user code observes (behaviour invocations with instance and behaviour-stack mode, ActorOf "
-         "results), and the final per-actor state (state, zombie, paused, queue lengths, stash, children, watchers, behaviour stack, instance, registry) and "
-         "event-stream tables")
+         "results), and the final per-actor state (state, zombie, paused, queue lengths, stash length AND stash content in order, children, watchers, "
+         "behaviour stack, instance, registry) and event-stream tables (replay entry coq/Actor/CoreRun2.v). Private observations are located by reflection "
+         "(name, then role); one that cannot be located in the build under test is listed as unavailable_observations in the report's info and blanked in the "
+         "projection on both sides instead of breaking the build")
 
 COMPONENTS = {
     "actor": {
-        "coq_run_module": "Actor.CoreRun",
+        "coq_run_module": "Actor.CoreRun2", "run": "run_actor2",     # CoreRun's replay + the content of every stash in the final projection
         "accessors": {
             "internal/mailbox/xv_mb_verif.go": "acc/mailbox/xv_mb_verif.go",
             "internal/mailbox/xv_mb_owner_verif.go": "acc/mailbox/xv_mb_owner_verif.go",
@@ -25,21 +27,36 @@ _RULE = ("scenarios = external API callers + scripted actors (behaviours, superv
          "with tell/tell-self/spawn/kill(poison or not)/panic/stash/unstash/watch/subscribe/publish/become scripts and references obtained from ActorOf, "
          "children, sender, parent and parsed paths, racing external callers; (b) the supervision matrix: decision (6 + invalid) x one-for-one/one-for-all x "
          "failure site (user message at every position of a queued burst, OnLaunch, a child's OnKilled, sibling failure) x restart hooks that may fail x "
-         "escalation depth 1..2, with probes afterwards; schedules: random and sticky (few preemptions) choosers of the controlled scheduler. one case = one "
-         "complete run; distinct = distinct (scenario, schedule); non-trivial = at least 3 actors")
+         "escalation depth 1..2, with probes afterwards; failure sites 5/6: the SUPERVISOR is in its own graceful stop / supervised graceful restart when the "
+         "child's backlog fails; the failing incarnation may Become first; (c) stash scenarios: a worker parks mail (Stash, twice, behind Become), goes through "
+         "a supervised failure with every decision / failing restart hooks (zombie) / kill / supervisor failure / a failing message that parked itself, then "
+         "Unstash in every API variant (no argument, n < 0, 0, 1.., more than parked; one-by-one draining) from a later message, from the new incarnation's "
+         "OnLaunch or from OnKill, traffic sent by the supervisor right after the spawn; (d) death-watch scenarios: 1..3 sibling watchers (+ one outside) "
+         "registering through a baton message, twice, unwatching, the target ending by kill / failure (restart keeps watchers) over several rounds with re-spawn; "
+         "Become/UnBecome with and without options, panic and ctx.Failed; schedules: random and sticky (few preemptions) choosers of the controlled scheduler, "
+         "DFS with preemption bound. one case = one complete run; distinct = distinct (scenario, schedule); non-trivial = at least 3 actors. Implementation-side "
+         "monitors (the property evaluated on what the real runtime did): c03-lost-message / c03-duplicated-message (exact per-tag copy accounting: sends + Stash "
+         "calls = processed + guard + zombie + dead-letter reports + in a stash), c03-dead-letter-twice; c05-before-launch / never-launched / after-killed, "
+         "c05-launch-to-stale-instance / -behaviour (restart OnLaunch at the fresh instance in mode OnReceive); c06-duplicate-onkilled, parent-before-descendant, "
+         "c06-watcher-not-notified / c06-parent-not-notified (watchers tracked from the handled Watch/Unwatch requests), c06-subscription-outlives-actor; "
+         "c08-failure-not-supervised, c08-strategy-not-consulted / -consulted-twice, c08-directive-mismatch (per handled failure report: consultations of the real "
+         "OneForOne/OneForAll strategy object and every directive envelope vs decision and targets, whatever the supervisor's own state); c09-survivor-paused / "
+         "-mail / half-stopped; c19-*")
 
 _MNV = [
     "the mailbox handshake (status word, counters, goroutine start) is abstracted in ActorCore: justified by the C01/C02 theorems",
     "registry (sync.Map), event-stream tables and actor-local updates between two mailbox operations are atomic (they contain no scheduling point); M1, M3",
     "futures/Ask, scheduler jobs, remoting and metrics are outside ActorCore (C04, C20, C11-C15)",
     "Go map iteration order (children, watchers, subscribers, one-for-all targets) is a free choice of the model resolved by the observed trace",
+    "the decision maker of a strategy is a script (list of answers, exhausted = Stop); the real OneForOneStrategy / OneForAllStrategy objects of supervision_strategy.go are driven with such a scripted decision maker (their unused back-off options are not modelled)",
+    "stash theorems: Stash/Unstash are script actions inside an atomic phase; the log of a run's stash operations is read off by re-running run_atomic's recursion (Actor/SpecStash.v), not stored in the model state",
 ]
 
 PROPERTIES = {
-    "C03": {"components": ["actor"], "rule": _RULE, "modelled_not_verified": _MNV, "monitor_filter": r"^c03-|^no-quiescence$|^crash$"},
-    "C05": {"components": ["actor"], "rule": _RULE, "modelled_not_verified": _MNV, "monitor_filter": r"^c05-|^crash$"},
+    "C03": {"components": ["actor"], "coq_files": ["Properties/C03.v", "Properties/C03_stash.v", "Properties/C03_copies.v"], "rule": _RULE, "modelled_not_verified": _MNV, "monitor_filter": r"^c03-|^no-quiescence$|^crash$"},
+    "C05": {"components": ["actor"], "coq_files": ["Properties/C05.v", "Properties/C05_restart.v"], "rule": _RULE, "modelled_not_verified": _MNV, "monitor_filter": r"^c05-|^crash$"},
     "C06": {"components": ["actor"], "rule": _RULE, "modelled_not_verified": _MNV, "monitor_filter": r"^c06-|^crash$"},
-    "C08": {"components": ["actor"], "rule": _RULE, "modelled_not_verified": _MNV, "monitor_filter": r"^c08-|^c09-survivor-paused$|^c09-half-stopped$|^crash$"},   # a directive that is not applied to all its targets shows as a paused / half-stopped survivor
+    "C08": {"components": ["actor"], "coq_files": ["Properties/C08.v", "Properties/C08_history.v"], "rule": _RULE, "modelled_not_verified": _MNV, "monitor_filter": r"^c08-|^c09-survivor-paused$|^c09-half-stopped$|^crash$"},   # a directive that is not applied to all its targets shows as a paused / half-stopped survivor
     "C09": {"components": ["actor"], "rule": _RULE, "modelled_not_verified": _MNV, "monitor_filter": r"^c09-|^no-quiescence$|^crash$"},
 }
 
@@ -52,10 +69,10 @@ def _meta(what):
     }
 
 META = {
-    "C03": _meta("Conservation of user messages (processed / stashed / dead-lettered exactly once; zombie and after-stop exceptions)."),
-    "C05": _meta("Lifecycle grammar per incarnation (OnLaunch first, nothing after own OnKilled, restart starts a new incarnation with OnLaunch at the restarted actor)."),
+    "C03": _meta("Conservation of user messages (processed / stashed / dead-lettered exactly once; zombie and after-stop exceptions). C03_stash.v: over EVERY event list the stash of every actor is a FIFO that only its owner's own Stash / Unstash calls touch (stash before ++ parked = taken ++ stash after; from the initial state parked = taken ++ still parked): no restart, failed restart, stop, kill, directive, queue operation or other actor adds, drops, duplicates or reorders parked mail; what Unstash takes is re-enqueued into the own mailbox. C03_copies.v: for every thread and every class of user messages, over every event list: pending + issued (Tell / TellSelf / taken by Unstash) = inserted + turned into a dead-letter report at the insertion + still pending (nothing at quiescence); with C03_conservation and the stash history this closes the chain send -> insertion -> handler call -> processed / zombie / dead letter / parked -> un-parked link by link - the equation the monitor c03-lost-message / c03-duplicated-message evaluates on the real runtime."),
+    "C05": _meta("Lifecycle grammar per incarnation (OnLaunch first, nothing after own OnKilled, restart starts a new incarnation with OnLaunch at the restarted actor). C05_restart.v: in every reachable state the invocation that follows an actor's own OnKilled is the OnLaunch of the new incarnation, handled in mode 0 (OnReceive, not a behaviour installed by Become) by the instance the restart put in charge (fresh with a provider, same without); the instance changes nowhere else."),
     "C06": _meta("Kill terminates the subtree, children first, each reported once; path released."),
-    "C08": _meta("Supervision applies exactly the decided directive to exactly the strategy's targets."),
+    "C08": _meta("Supervision applies exactly the decided directive to exactly the strategy's targets. C08_history.v: along every run what is left of a supervisor's decision maker is what remains after exactly as many answers as failure reports it handled (also while it is stopping / restarting / a zombie); the next report gets the k-th answer; no other event consumes one."),
     "C09": _meta("No survivor stays paused or half-stopped; queued mail survives restart; zombie behaviour."),
 }
 
